@@ -86,7 +86,7 @@ type genFunc func(step int) string
 
 // runOnce executes a history (ops[0] = "v41" | "v40") once.
 func runOnce(t *testing.T, ops []string, labels []int, drv *hx.Driver, gen func(r any, step int) string, steps int) (out outcome) {
-	out = outcome{flags: map[string]bool{}, replies: map[int][]byte{}, dropped: map[int]bool{}}
+	out = outcome{flags: map[string]bool{}, replies: map[int][]byte{}, dropped: map[int]bool{}, refs: map[int]bool{}, defs: map[int]int{}}
 	if len(ops) == 0 {
 		return
 	}
@@ -130,6 +130,7 @@ func runLoop(out *outcome, ops []string, labels []int, gen func(r any, step int)
 	do := func(op string, label int) {
 		progress.Add(1)
 		setLabel(label)
+		currentHistory.Store(append(append([]string(nil), out.executed...), op))
 		if exec(op) {
 			out.executed = append(out.executed, op)
 			after()
@@ -168,7 +169,7 @@ func runHistory(t *testing.T, ops []string, drv *hx.Driver, gen func(r any, step
 	var ref []string
 	var labels []int
 	for i, op := range out.executed {
-		if i > 0 && out.dropped[i] {
+		if id, isDef := out.defs[i]; i > 0 && out.dropped[i] && !(isDef && out.refs[id]) {
 			continue
 		}
 		ref = append(ref, op)
@@ -299,6 +300,14 @@ func TestHarness(t *testing.T) {
 		res.ModelLines = drv.Lines
 		res.Write(o)
 		return
+	}
+
+	// fact tie: the status table of transactionShouldComplete
+	if d := checkShouldCompleteTable(drv); d != "" {
+		res.Report(hx.Finding{Kind: "mismatch", Property: "C19", What: "transactionShouldComplete differs from Replay40.shouldComplete: " + d,
+			Name: "fact tie for theorem C19.seq_advance_rule_40 / should_complete_table_40", Sig: hx.Sig("C19", "should-complete-table"), History: []string{}})
+	} else {
+		res.Count("fact-tie-shouldComplete-ok")
 	}
 
 	mismatches, violations := 0, 0
